@@ -73,9 +73,15 @@ Definition user_free (bytes : Z) (e : end_t) (s : stack) : stack :=
   | TAIL => mkStack (s_size s) (s_used s - bytes) (s_top1 s) (s_top2 s + bytes)
   end.
 
-(* p?gstrf_WorkFree, USER branch *)
-Definition work_free_stack (s : stack) : stack :=
+(* reclaiming the whole tail (the work arrays of all threads of the last factorization): done by the next
+   p?gstrf_MemInit (refact = YES: size/top2 re-armed, used := top1; refact = NO: SetupSpace).  Until fix 'WorkFree keeps the
+   tail' this was what p?gstrf_WorkFree did in the USER branch -- by whichever thread finished first, while the others were
+   still using their arrays (findings F17, C14-workfree). *)
+Definition tail_reclaim_stack (s : stack) : stack :=
   mkStack (s_size s) (s_used s - (s_size s - s_top2 s)) (s_top1 s) (s_size s).
+
+(* p?gstrf_WorkFree, USER branch: nothing is released (other threads may still be running) *)
+Definition work_free_stack (s : stack) : stack := s.
 
 (* NotDoubleAlign / DoubleAlign on the address  base + off,  base mod 8 = ba *)
 Definition misalign (ba off : Z) : Z := (ba + off) mod 8.
@@ -83,11 +89,12 @@ Definition align_up_extra (ba off : Z) : Z := (8 - misalign ba off) mod 8.   (* 
 
 (* ------------------------------------------------------------------ *)
 (* A client of the bare allocator that respects the stack discipline the allocator was written for:
-   it frees only the most recent live block of an end (or, like p?gstrf_WorkFree, the whole tail). *)
+   it frees only the most recent live block of an end (or, like the next p?gstrf_MemInit, the whole tail). *)
 Inductive req :=
 | RMalloc (bytes : Z) (e : end_t)
 | RFreeLast (e : end_t)
-| RWorkFree.
+| RWorkFree                       (* p?gstrf_WorkFree: keeps everything *)
+| RReclaim.                       (* the whole tail is given back (next MemInit) *)
 
 Record ust := mkUst {
   u_stack : stack;
@@ -118,7 +125,8 @@ Definition do_req (r : req) (u : ust) : ust :=
       | [] => u
       | (_, b) :: t => mkUst (user_free b TAIL (u_stack u)) (u_head u) t
       end
-  | RWorkFree => mkUst (work_free_stack (u_stack u)) (u_head u) []
+  | RWorkFree => u
+  | RReclaim => mkUst (tail_reclaim_stack (u_stack u)) (u_head u) []
   end.
 
 Definition run_reqs (rs : list req) (u : ust) : ust := fold_left (fun u r => do_req r u) rs u.
@@ -421,7 +429,8 @@ Definition mi_refact (a : mi_args) (g0 : glu) (m : mem) : res mi_result :=
   let nzlumax := a_nzlumax a in
   let m := if a_lwork a =? 0 then set_space m SYSTEM
            else let s := m_stack m in
-                set_stack (set_space m USER) (mkStack (a_lwork a) (s_used s) (s_top1 s) (a_lwork a)) in
+                (* stack.size = lwork; stack.top2 = lwork; stack.used = stack.top1;  (the tail is reclaimed here) *)
+                set_stack (set_space m USER) (mkStack (a_lwork a) (s_top1 s) (s_top1 s) (a_lwork a)) in
   bind (set_expander c_LSUB (g_lsub g0) nzlmax m) (fun _ m =>
   bind (set_expander c_LUSUP (g_lusup g0) nzlumax m) (fun _ m =>
   bind (set_expander c_USUB (g_usub g0) nzumax m) (fun _ m =>
